@@ -702,6 +702,8 @@ def branch_model(mn, kw, d):
 def gen_branch(rnd, nrand=64, full=False):
     out = []
     ds = set(range(-129, 129))
+    ds |= set(range(-260, -129)) | set(range(129, 261))  # the band in which a sign confusion of an 8-bit value would show (0x80..0xff)
+    ds |= {0x100, 0x10000, -0x10000, 0x1000000, 0x7f00, -0x7f00, 0x8000, 0x80000000 - 0x100}  # byte patterns (a zero low byte, 0x80 in the second byte)
     for c in (2**15, 2**31):
         for s in (1, -1):
             for e in (-1, 0, 1):
@@ -716,7 +718,7 @@ def gen_branch(rnd, nrand=64, full=False):
             for d in ds:
                 model = branch_model(mn, kw, d)
                 for hexsp in (False, True):
-                    if not full and not (-129 <= d <= 128) and rnd.random() < 0.5:
+                    if not full and not (-260 <= d <= 260) and rnd.random() < 0.5:
                         continue
                     mag = abs(d)
                     txt = ("-" if d < 0 else "") + (("0x%x" % mag) if hexsp else "%d" % mag)
